@@ -53,14 +53,20 @@ func (r *Rule) Inflected(s string) string {
 }
 
 func (r *Rule) inflected(s string) string {
-	if res := r.compiledIrregular.FindStringSubmatch(s); len(res) >= 3 {
-		var buf strings.Builder
+	if loc := r.compiledIrregular.FindStringSubmatchIndex(s); len(loc) >= 6 {
+		word := s[loc[4]:loc[5]]
 
-		buf.WriteString(res[1])
-		buf.WriteString(s[0:1])
-		buf.WriteString(r.irregularMap[strings.ToLower(res[2])][1:])
+		// (?i) also matches non-ASCII fold variants (e.g. "ſ" for "s") which ToLower keeps: no entry, not irregular
+		if replacement, ok := r.irregularMap[strings.ToLower(word)]; ok {
+			var buf strings.Builder
 
-		return buf.String()
+			// everything before the matched word, then the word's own first letter (keeps its case)
+			buf.WriteString(s[:loc[4]])
+			buf.WriteString(word[0:1])
+			buf.WriteString(replacement[1:])
+
+			return buf.String()
+		}
 	}
 
 	if r.compiledUninflected.MatchString(s) {
